@@ -49,6 +49,8 @@ def make_selection(d, shape, sel, variant):
             return S.MaskSubsetState(m.reshape(shape), list(d.pixel_component_ids))
         return S.ElementSubsetState(indices=sorted(sel['s']), data=d)
     box = sel['box']
+    if len(shape) >= 3 and all(box[k] == [0, shape[k]] for k in range(len(shape) - 2)):
+        variant = 2          # a pure pixel-space region: the mask is broadcast along the leading axes
     if variant % 3 == 0 or len(shape) < 2:
         return S.SliceSubsetState(d, [slice(lo, hi) for lo, hi in box])
     if variant % 3 == 1:
@@ -61,7 +63,8 @@ def make_selection(d, shape, sel, variant):
     st = S.RoiSubsetState(xatt=px[-1], yatt=px[-2], roi=R.RectangularROI(xlo - 0.5, xhi - 0.5, ylo - 0.5, yhi - 0.5))
     for k in range(len(shape) - 2):
         lo, hi = box[k]
-        st = st & (px[k] >= lo) & (px[k] < hi)
+        if [lo, hi] != [0, shape[k]]:
+            st = st & (px[k] >= lo) & (px[k] < hi)
     return st
 
 
